@@ -201,7 +201,7 @@ Proof. induction 1; cbn [length]; auto. Qed.
    and the row of a requested spike the store does not hold is the zero row. *)
 Theorem link_route c (data : list (list R)) traces samples n nch spikes ids q_ids q_ch :
   1 <= n -> Forall (fun sp => chans_ok c (sp_ch sp)) spikes ->
-  NoDup ids -> Forall (fun x => 0 <= x) ids -> NpSearch.zlen ids = NpSearch.zlen spikes ->
+  Forall (fun x => 0 <= x) ids -> NpSearch.zlen ids = NpSearch.zlen spikes ->
   NoDup q_ids -> (forall x, In x q_ids -> 0 <= x) ->
   q_ch <> [] -> NoDup q_ch -> Forall (fun ch => -1 <= ch) q_ch ->
   let st := C03.Model.mkstore ids (map sp_ch spikes) (scaled_windows rzero scale data n spikes) in
@@ -217,7 +217,7 @@ Theorem link_route c (data : list (list R)) traces samples n nch spikes ids q_id
           (forall t, nth_error exist t = Some x -> nth_error out p = nth_error feats t) /\
           (~ In x ids -> nth_error out p = Some (zrow3 (length q_ch))).
 Proof.
-  intros Hn Hok Hndi Hids Hlen Hndq Hq0 Hne Hndc Hqc st exist.
+  intros Hn Hok Hids Hlen Hndq Hq0 Hne Hndc Hqc st exist.
   destruct (link_waveforms c data traces samples n nch spikes ids q_ids q_ch Hn Hok Hids Hlen Hne Hndc Hqc)
     as (sps & Hsps & Hw).
   exists sps. split; [exact Hsps|]. intros W.
@@ -304,7 +304,7 @@ End Link.
 Theorem link_route_export {R} (radd rmul : R -> R -> R) (rzero : R) (pcs_of : list (list (list R)) -> list (list (list R)))
     (scale : R -> R) c (data : list (list R)) traces samples n nch ncs chunks spikes kf ids q_ids q_ch :
   rect c data -> 1 <= c -> 1 <= n -> 0 <= ncs -> spikes_ok (NpSearch.zlen data) c ncs spikes -> Tiles (NpSearch.zlen data) chunks ->
-  NoDup ids -> Forall (fun x => 0 <= x) ids -> NpSearch.zlen ids = NpSearch.zlen spikes ->
+  Forall (fun x => 0 <= x) ids -> NpSearch.zlen ids = NpSearch.zlen spikes ->
   NoDup q_ids -> (forall x, In x q_ids -> 0 <= x) ->
   q_ch <> [] -> NoDup q_ch -> Forall (fun ch => -1 <= ch) q_ch ->
   let exist := C06.Model.intersect1d q_ids ids in
@@ -321,12 +321,12 @@ Theorem link_route_export {R} (radd rmul : R -> R -> R) (rzero : R) (pcs_of : li
           (forall t, nth_error exist t = Some x -> nth_error out p = nth_error feats t) /\
           (~ In x ids -> nth_error out p = Some (zrow3 rzero (length q_ch))).
 Proof.
-  intros Hr Hc Hn Hnc Hsp Ht Hndi Hids Hlen Hndq Hq0 Hne Hndc Hqc exist.
+  intros Hr Hc Hn Hnc Hsp Ht Hids Hlen Hndq Hq0 Hne Hndc Hqc exist.
   destruct (export_load rzero scale c data n ncs chunks spikes kf Hr Hc Hn Hnc Hsp Ht) as (f & Hf & _ & _ & Hl).
   assert (Hok : Forall (fun sp => chans_ok c (sp_ch sp)) spikes).
   { destruct Hsp as [_ H]. eapply Forall_impl; [|exact H]. cbv beta. tauto. }
   destruct (link_route radd rmul rzero pcs_of scale c data traces samples n nch spikes ids q_ids q_ch
-              Hn Hok Hndi Hids Hlen Hndq Hq0 Hne Hndc Hqc) as (sps & Hsps & _ & Hmain).
+              Hn Hok Hids Hlen Hndq Hq0 Hne Hndc Hqc) as (sps & Hsps & _ & Hmain).
   exists f, (scaled_windows rzero scale data n spikes), sps. auto.
 Qed.
 
